@@ -382,3 +382,30 @@ func H_C05_step() {
 	_ = id
 	vReach("step")
 }
+
+func init() { vReg("H_C09_step", H_C09_step) }
+
+// C09 (inductive step): for ANY connection id n > 0 and ANY request number k >= 1,
+// the request built by the real newRequest reports ConnectionID() == n.
+func H_C09_step() {
+	n, k := vInt("connID"), vInt("requestID")
+	vAssume(n > 0 && k >= 1)
+	nc := vNetConn("c")
+	c, err := newConn(context.Background(), n, nc, vLogger(), vMux())
+	vAssert(err == nil && c != nil, "connection created for every positive id")
+	if err != nil || c == nil {
+		return
+	}
+	vAssert(c.connID == n, "the connection stores the id it was given")
+	vSummarise("encodeInteger")
+	r, err := newRequest(k, c, &packet{Packet: vFrame("f", 1)})
+	vAssert(err == nil && r != nil, "request built")
+	if err != nil || r == nil {
+		return
+	}
+	vAssert(r.ConnectionID() == n, "every request of the connection reports the connection's id, whatever its request number")
+	vAssert(r.ID == k, "request number kept")
+	w, err := newResponseWriter(c.writer, &c.writerMu, c.logger, c.connID, k)
+	vAssert(err == nil && w.connID == n, "response writer carries the same connection id")
+	vReach("step")
+}
